@@ -14,11 +14,12 @@ use std::sync::Mutex;
 
 pub const PROP: &str = "C12";
 
-pub const CONTENTS: [&str; 8] = [
+pub const CONTENTS: [&str; 9] = [
     "package p;\nimport p.B;\ninterface A {\n  void f(B b);\n}\n",
     "package p; parcelable B { int x; }",
     "package p; enum B { X, Y }",
-    "this is not AIDL at all {",
+    // a recovered syntax error (a diagnostic is already collected) followed by a fatal one: no tree
+    "package p;\nparcelable B { int ; int x; }\n#",
     // the same text as content 0 with CRLF line ends (same lines, other offsets)
     "package p;\r\nimport p.B;\r\ninterface A {\r\n  void f(B b);\r\n}\r\n",
     // starts with a byte order mark (on disk as bom.aidl): no tree
@@ -28,8 +29,10 @@ pub const CONTENTS: [&str; 8] = [
     // same kind and name as content 1 in a sub-package: the new key `p.q.B` starts with the old
     // package and ends with the old name (replacing 1 by 7 must unregister `p.B`)
     "package p.q; parcelable B { int x; }",
+    // a blank file (on disk as blank.aidl): no tree, one Error
+    "  \n\t\n",
 ];
-const IDS: [&str; 7] = ["a.aidl", "b.aidl", "m.aidl", "bad.aidl", "sub", "bom.aidl", "big.aidl"];
+const IDS: [&str; 8] = ["a.aidl", "b.aidl", "m.aidl", "bad.aidl", "sub", "bom.aidl", "big.aidl", "blank.aidl"];
 
 /// > 2 KiB, with two- and three-byte characters at both byte parities, so that some of them
 /// straddle every 512-byte boundary
@@ -100,6 +103,7 @@ fn disk_content(id: usize) -> Option<usize> {
         1 => Some(2),
         5 => Some(5),
         6 => Some(6),
+        7 => Some(8),
         _ => None,
     }
 }
@@ -114,10 +118,10 @@ pub fn alphabet_a() -> Vec<Op> {
     v.push(Op::Add(3, 1));
     v.push(Op::Add(1, 7));
     v.push(Op::Add(2, 7));
-    for id in 0..7 {
+    for id in 0..8 {
         v.push(Op::AddFile(id));
     }
-    for id in [0usize, 1, 2, 3, 5, 6] {
+    for id in [0usize, 1, 2, 3, 5, 6, 7] {
         v.push(Op::Remove(id));
     }
     v.push(Op::Validate);
@@ -185,6 +189,7 @@ impl Env {
         std::fs::write(dir.join("b.aidl"), CONTENTS[2]).unwrap();
         std::fs::write(dir.join("bom.aidl"), CONTENTS[5]).unwrap();
         std::fs::write(dir.join("big.aidl"), big_text()).unwrap();
+        std::fs::write(dir.join("blank.aidl"), CONTENTS[8]).unwrap();
         std::fs::write(dir.join("bad.aidl"), [0x70u8, 0x61, 0xff, 0xfe, 0x80]).unwrap();
         Env { dir }
     }
@@ -592,7 +597,7 @@ pub fn run(tier: Tier, seed: u64) -> i32 {
     stats.sample(json!({"history": "add_content(a.aidl, c0); validate(); add_file(m.aidl) [missing -> Err]; add_content(a.aidl, c3)"}));
     finish(
         &stats,
-        "explicit-state exploration of operation histories on the real Parser<PathBuf>: alphabet A (32 operations: add_content 3 ids x 5 contents (one of them the CRLF twin of another), 2 ids x a same-named parcelable in a sub-package + one id that exists on disk as invalid UTF-8, add_file of four readable files (one under a non-canonical path, one starting with a byte order mark, one of 2 KiB with multi-byte characters across every 512-byte boundary) / a missing file / a non-UTF-8 file / a directory, remove_content of 5 ids, validate), alphabet B (11 operations); full history trees from the empty parser to the stated depths and all suffixes of the stated length from every reachable abstract state; after every transition validate() of the live object is compared with validate() of a fresh parser loaded with the abstract id -> content map (trees by equality, diagnostics as position-sorted lists, id tags, add_file's error status); states = transitions executed (every node is checked), distinct_nontrivial = distinct abstract states reached",
+        "explicit-state exploration of operation histories on the real Parser<PathBuf>: alphabet A (34 operations: add_content 3 ids x 5 contents (one of them the CRLF twin of another), 2 ids x a same-named parcelable in a sub-package + one id that exists on disk as invalid UTF-8, add_file of five readable files (a blank one, one under a non-canonical path, one starting with a byte order mark, one of 2 KiB with multi-byte characters across every 512-byte boundary) / a missing file / a non-UTF-8 file / a directory, remove_content of 5 ids, validate), alphabet B (11 operations); full history trees from the empty parser to the stated depths and all suffixes of the stated length from every reachable abstract state; after every transition validate() of the live object is compared with validate() of a fresh parser loaded with the abstract id -> content map (trees by equality, diagnostics as position-sorted lists, id tags, add_file's error status); states = transitions executed (every node is checked), distinct_nontrivial = distinct abstract states reached",
         &[
             "hook H4 (derive Clone on Parser) lets the explorer branch from a live object; every violation is re-confirmed by a from-scratch replay of the plain history without clones",
             "abstract states registering one key with two kinds (c1 and c2 together) are explored like all others (no pruning since the repair 74eb68d)",
